@@ -132,6 +132,11 @@ def assign_to(ex, tgt, v, s: St):
                 yield s1, _raise_out(vals)
                 continue
             base, idx = vals
+            from .values import BoundMethod
+            if isinstance(base, BoundMethod) and isinstance(base.self_val, Val) and strip_opt(base.self_val.ty)[0] == "any":
+                # container held in an attribute of an UNTYPED object (e.g. the executor's span slot): a list owned by that object
+                base = ex.read_attr(base.self_val, base.name, ANY, s1)
+                base = Val(base.t, SEQ(ANY)) if isinstance(idx, IVal) else base
             if not isinstance(base, Val):
                 raise Unsupported(f"subscript store on {base!r}")
             ty = strip_opt(base.ty)
@@ -263,18 +268,37 @@ def st_If(ex, node, st):
         s2 = s.fork().assume(z3.Not(t))
         s1.notes.append(f"L{node.lineno}+")
         s2.notes.append(f"L{node.lineno}-")
-        if ex.feasible(s1):
+        # the same test decided earlier on this path (syntactically the same formula): no solver call
+        known = _known_truth(t, s.pc)
+        feas1 = ex.feasible(s1) if known is None else known
+        feas2 = ex.feasible(s2) if known is None else not known
+        if feas1:
             for name, ty in narrowed.get(True, {}).items():
                 v = s1.env.get(name)
                 if isinstance(v, Val):
                     s1.env[name] = Val(v.t, ty)
             yield from exec_block(ex, node.body, s1)
-        if ex.feasible(s2):
+        if feas2:
             for name, ty in narrowed.get(False, {}).items():
                 v = s2.env.get(name)
                 if isinstance(v, Val):
                     s2.env[name] = Val(v.t, ty)
             yield from exec_block(ex, node.orelse, s2)
+
+
+def _known_truth(t, pc):
+    """True / False when the path condition literally contains t / Not(t); None otherwise."""
+    if z3.is_true(t):
+        return True
+    if z3.is_false(t):
+        return False
+    nt = z3.Not(t)
+    for f in reversed(pc):
+        if f.eq(t):
+            return True
+        if f.eq(nt):
+            return False
+    return None
 
 
 _ISINSTANCE_TYS = {"list": SEQ(ANY), "tuple": SEQ(ANY), "dict": DICT(ANY, ANY), "str": STR, "set": SET(ANY)}
@@ -455,14 +479,22 @@ def mutated_exprs(stmts):
     return out
 
 
-def havoc_for_loop(ex, body, st: St, extra_modifies=()):
-    """Forget everything the loop body may change: assigned locals and mutated containers."""
+def havoc_for_loop(ex, body, st: St, extra_modifies=(), only=None):
+    """Forget everything the loop body may change: assigned locals and mutated containers.
+    `only`: the loop's DECLARED frame (list of container values): exactly these are forgotten; every write of the body is
+    then checked against the declaration (loop_frame_obligations)."""
     s = st.fork()
     for name in assigned_names(body):
         if name in s.env:
             s.env[name] = fresh_like(s.env[name], s, name)
     havoc_all = False
     refs = []
+    if only is not None:
+        for kind, expr in mutated_exprs(body):
+            if kind == "attr" and expr.attr in s.heap.f:
+                s.heap = s.heap.with_field(expr.attr, z3.Const(smt.fresh_name(f"H_f_{expr.attr}"), smt.VV))
+        _havoc_refs(s, list(only))
+        return s
     for kind, expr in mutated_exprs(body):
         if kind == "attr":
             n = expr.attr
@@ -499,7 +531,7 @@ def havoc_for_loop(ex, body, st: St, extra_modifies=()):
             cname = x.func.id if isinstance(x.func, ast.Name) else x.func.attr if isinstance(x.func, ast.Attribute) else None
             if cname is None:
                 continue
-            cands = [(k, c) for k, c in ex.project.contracts.items() if c.get("modifies") and (k.endswith(":" + cname) or k.endswith("." + cname))]
+            cands = [(k, c) for k, c in ex.project.contracts.items() if c.get("modifies") and c.get("call_site") != "opaque" and (k.endswith(":" + cname) or k.endswith("." + cname))]
             if not cands:
                 continue
             for key, c in cands:
@@ -568,19 +600,53 @@ def havoc_for_loop(ex, body, st: St, extra_modifies=()):
         s.assume(*smt.heap_wellformed(s.heap))
         ex.assumptions.add("loop havoc: whole heap forgotten (container identity varies inside the loop)")
     else:
-        for v in refs:
-            k = strip_opt(v.ty)[0]
-            comps = {"dict": ("dh", "dv", "dn", "d"), "set": ("sh", "sn", None, "s"), "seq": ("sl", "sa", None, "q")}.get(k)
-            if comps is None:
-                comps_list = [("dh", "dv", "dn", "d"), ("sh", "sn", None, "s"), ("sl", "sa", None, "q")]
-            else:
-                comps_list = [comps]
-            for cs in comps_list:
-                for c in cs[:3]:
-                    if c:
-                        s.heap = s.heap.havoc_ref(c, v.t)
-                s.assume(*smt.heap_wellformed_ref(s.heap, v.t, cs[3]))
+        _havoc_refs(s, refs)
     return s
+
+
+def _havoc_refs(s, refs):
+    for v in refs:
+        k = strip_opt(v.ty)[0]
+        comps = {"dict": ("dh", "dv", "dn", "d"), "set": ("sh", "sn", None, "s"), "seq": ("sl", "sa", None, "q")}.get(k)
+        if comps is None:
+            comps_list = [("dh", "dv", "dn", "d"), ("sh", "sn", None, "s"), ("sl", "sa", None, "q")]
+        else:
+            comps_list = [comps]
+        for cs in comps_list:
+            for c in cs[:3]:
+                if c:
+                    s.heap = s.heap.havoc_ref(c, v.t)
+            s.assume(*smt.heap_wellformed_ref(s.heap, v.t, cs[3]))
+
+
+def loop_frame(ex, spec, s):
+    """Values of the loop's declared `modifies` expressions, evaluated at the loop head (None when nothing is declared)."""
+    if "modifies" not in spec:
+        return None
+    out = []
+    for m in spec["modifies"]:
+        ex.pure_depth += 1
+        try:
+            v = ex.ev1(ast.parse(m, mode="eval").body, s.fork())
+        finally:
+            ex.pure_depth -= 1
+        if not isinstance(v, Val):
+            raise Unsupported(f"loop modifies clause `{m}` does not denote a container")
+        out.append(v)
+    return out
+
+
+def loop_frame_obligations(ex, lname, spec, frame, w0, pre_fresh):
+    """Soundness of the declared loop frame: every write recorded while executing the body targets a declared container or
+    an object allocated during the iteration (neither entry-allocated nor allocated before the loop head)."""
+    from .exec import Obligation
+    for n, (kind, base, pc) in enumerate(ex.writes[w0:]):
+        if kind.startswith("attr:"):
+            continue  # field arrays assigned in the body are forgotten wholesale at the loop head
+        local = z3.And(z3.Not(smt.Alloc0(base.t)), smt.SkFam(base.t) == 0, *[base.t != o for o in pre_fresh])
+        goal = z3.Or(local, *[base.t == f.t for f in frame])
+        ex.obligations.append(Obligation(f"{lname}.frame.write{n}[{kind}]", "loop-frame", pc, goal,
+                                         {"clause": f"loop writes only to {spec['modifies']} or to objects allocated in the iteration", "target": str(base.t)}, aux=True))
 
 
 def fresh_like(v, s: St, name="x"):
@@ -636,7 +702,9 @@ def st_For(ex, node, st):
             g = ex.eval_clause(inv, s)
             ex.oblige(f"{lname}.inv{k}.init", "inv-init", s, g, {"clause": inv}, aux=True)
         # 2. arbitrary iteration
-        hs = havoc_for_loop(ex, node.body + node.orelse, s, ())
+        frame = loop_frame(ex, spec, s)
+        hs = havoc_for_loop(ex, node.body + node.orelse, s, (), only=frame)
+        w0, pre_fresh = len(ex.writes), list(hs.fresh)
         i = smt.fresh_int(f"i{idx}")
         hs.env["_i"] = IVal(i)
         hs.env[f"_i{idx}"] = IVal(i)
@@ -672,6 +740,8 @@ def st_For(ex, node, st):
                     yield s2, Outcome(NORMAL)
                 else:
                     yield s2, out
+            if frame is not None:
+                loop_frame_obligations(ex, lname, spec, frame, w0, pre_fresh)
         # 3. exhaustion
         end_s = hs.fork().assume(i == view.len)
         if ex.feasible(end_s):
